@@ -429,6 +429,28 @@ fn layout_script(r: &mut SimRng) -> Vec<PyCall> {
     let ctor = vec![json!(seed), json!(0), json!(tick), json!(step), json!(true)];
     g.calls.push(PyCall { k: "new_env".into(), o: "e".into(), m: String::new(), a: ctor.clone() });
     g.calls.push(PyCall { k: "new_numpy".into(), o: "n".into(), m: String::new(), a: ctor });
+    if g.r.chance(0.08) {
+        // clearing prologue: one order rests, the next step's order of exactly the same volume trades it away - the book
+        // is completely empty while the last step's traded volume is not 0
+        let bid_first = g.r.chance(0.5);
+        let v = g.r.range(1, 40) as u32;
+        let price = centre * tick;
+        for (k, bid) in [bid_first, !bid_first].into_iter().enumerate() {
+            let _ = g.m.create(bid, v, 3, Some(price));
+            g.calls.push(call("e", "place_order", vec![json!(bid), json!(v), json!(3), json!(price)]));
+            g.calls.push(PyCall { k: "np_limit_orders".into(), o: "n".into(), m: String::new(), a: vec![json!(vec![bid]), json!(vec![v]), json!(vec![3u32]), json!(vec![price])] });
+            g.calls.push(call("e", "step", vec![]));
+            g.calls.push(call("n", "step", vec![]));
+            if k == 1 || g.r.chance(0.5) {
+                for m in ["level_1_data_array", "level_2_data_array", "get_market_data"] {
+                    g.calls.push(call("e", m, vec![]));
+                }
+                for m in ["level_1_data", "level_2_data", "get_market_data"] {
+                    g.calls.push(call("n", m, vec![]));
+                }
+            }
+        }
+    }
     if g.r.chance(0.1) {
         // whale layouts: a few orders of 2^30 / 2^31 (recorded per-level series whose sums pass 2^32 within a few steps)
         g.whale = [3, 3];
